@@ -41,26 +41,42 @@ theorem parsePage_ne_crash (data : Bytes) : parsePage.run data ≠ .crash := saf
 
 /-! ### one request/reply round -/
 
+/-- what a paging run may do to the transport when its seeds satisfy `S` -/
+def EvOkS (S : Bytes → Nat → Prop) (region : Nat) (fb : Bytes) (id : Nat) : Ev → Prop
+  | .opened c tcp p _ => c = id ∧ tcp = false ∧ p = masterPort
+  | .send c p data _ => c = id ∧ p = masterPort ∧ ∃ ip port, S ip port ∧ data = constructPayload region fb ip port
+  | .recv c size _ => c = id ∧ size = some 1400
+
+/-- the seeds a complete query uses: `0.0.0.0:0` or the text of an address -/
+def SeedOk (ip : Bytes) (port : Nat) : Prop := (ip = zeroIp ∧ port = 0) ∨ ∃ a : Addr, ip = ipText a.1 ∧ port = a.2
+
 /-- what a master-server query may do to the transport; `id` is the number of the socket it opens.  Every datagram
 sent is the request for the given region and filter bytes, seeded with `0.0.0.0:0` or with the text of an address
-(the last one of the page received before, see `Rounds`). -/
+(the last one of the page received before, see `roundsLog` in `Lemmas/MasterRounds.lean`). -/
 def EvOkAt (region : Nat) (fb : Bytes) (id : Nat) : Ev → Prop
   | .opened c tcp p _ => c = id ∧ tcp = false ∧ p = masterPort
   | .send c p data _ => c = id ∧ p = masterPort ∧
       (data = constructPayload region fb zeroIp 0 ∨ ∃ a : Addr, data = constructPayload region fb (ipText a.1) a.2)
   | .recv c size _ => c = id ∧ size = some 1400
 
-/-- the seeds a paging run uses: `0.0.0.0:0` or the text of an address -/
-def SeedOk (ip : Bytes) (port : Nat) : Prop := (ip = zeroIp ∧ port = 0) ∨ ∃ a : Addr, ip = ipText a.1 ∧ port = a.2
+theorem evOkAt_of (region : Nat) (fb : Bytes) (id : Nat) (e : Ev) (h : EvOkS SeedOk region fb id e) :
+    EvOkAt region fb id e := by
+  cases e with
+  | opened c tcp p r => exact h
+  | recv c sz g => exact h
+  | send c p d f =>
+    obtain ⟨h1, h2, ip, port, hs, rfl⟩ := h
+    refine ⟨h1, h2, ?_⟩
+    rcases hs with ⟨rfl, rfl⟩ | ⟨a, rfl, rfl⟩
+    · exact Or.inl rfl
+    · exact Or.inr ⟨a, rfl⟩
 
-theorem qsafe_querySpecific (s : Sock) (hp : s.port = masterPort) (region : Nat) (fb ip : Bytes) (port : Nat)
-    (hseed : SeedOk ip port) : QSafe s (EvOkAt region fb s.id) (querySpecific s region fb ip port) := by
+theorem qsafe_querySpecific (S : Bytes → Nat → Prop) (s : Sock) (hp : s.port = masterPort) (region : Nat)
+    (fb ip : Bytes) (port : Nat) (hseed : S ip port) :
+    QSafe s (EvOkS S region fb s.id) (querySpecific s region fb ip port) := by
   unfold querySpecific
-  refine QSafe.bind (QSafe.send s _ _ fun _ => ⟨rfl, hp, ?_⟩) fun _ =>
+  exact QSafe.bind (QSafe.send s _ _ fun _ => ⟨rfl, hp, ip, port, hseed, rfl⟩) fun _ =>
     QSafe.bind (QSafe.recv s _ _ fun _ => ⟨rfl, rfl⟩) fun data => QSafe.parse _ _ safe_parsePage _
-  rcases hseed with ⟨rfl, rfl⟩ | ⟨a, rfl, rfl⟩
-  · exact Or.inl rfl
-  · exact Or.inr ⟨a, rfl⟩
 
 /-- a successful round on a UDP socket consumed a queued delivery -/
 theorem querySpecific_consumes (s : Sock) (hudp : s.tcp = false) (region : Nat) (fb ip : Bytes) (port : Nat)
@@ -96,11 +112,12 @@ theorem querySpecific_consumes (s : Sock) (hudp : s.tcp = false) (region : Nat) 
 
 /-! ### the paging loop: fuel suffices -/
 
-theorem qsafe_pageLoop (s : Sock) (hp : s.port = masterPort) (hudp : s.tcp = false) (region : Nat) (fb : Bytes) :
-    ∀ (fuel : Nat) (ips : List Addr) (ip : Bytes) (port : Nat) (w : Net), SeedOk ip port → IsOpen s w →
+theorem qsafe_pageLoop (S : Bytes → Nat → Prop) (hS : ∀ a : Addr, S (ipText a.1) a.2) (s : Sock)
+    (hp : s.port = masterPort) (hudp : s.tcp = false) (region : Nat) (fb : Bytes) :
+    ∀ (fuel : Nat) (ips : List Addr) (ip : Bytes) (port : Nat) (w : Net), S ip port → IsOpen s w →
       qlen w s.id < fuel →
       (pageLoop s region fb fuel ips ip port w).1 ≠ .crash
-      ∧ Step (EvOkAt region fb s.id) w (pageLoop s region fb fuel ips ip port w).2 := by
+      ∧ Step (EvOkS S region fb s.id) w (pageLoop s region fb fuel ips ip port w).2 := by
   intro fuel
   induction fuel with
   | zero => intro _ _ _ w _ _ h; omega
@@ -108,7 +125,7 @@ theorem qsafe_pageLoop (s : Sock) (hp : s.port = masterPort) (hudp : s.tcp = fal
     intro ips ip port w hseed hopen hq
     unfold pageLoop
     rw [Q.bind_apply]
-    have hqs := qsafe_querySpecific s hp region fb ip port hseed w hopen
+    have hqs := qsafe_querySpecific S s hp region fb ip port hseed w hopen
     cases hr : querySpecific s region fb ip port w with
     | mk res w1 =>
       rw [hr] at hqs
@@ -129,7 +146,7 @@ theorem qsafe_pageLoop (s : Sock) (hp : s.port = masterPort) (hudp : s.tcp = fal
           · split
             · exact ⟨by simp, hqs.2⟩
             · obtain ⟨h3, h4⟩ := ih (ips ++ page) (ipText latestIp) latestPort w1
-                (Or.inr ⟨(latestIp, latestPort), rfl, rfl⟩) hopen1 (by omega)
+                (hS (latestIp, latestPort)) hopen1 (by omega)
               exact ⟨h3, hqs.2.trans h4⟩
 
 /-- the body of `query` after the socket has been opened -/
@@ -142,7 +159,9 @@ theorem query_eq (region : Nat) (fs : Option SearchFilters) :
 theorem qsafe_queryBody (s : Sock) (hp : s.port = masterPort) (hudp : s.tcp = false) (region : Nat) (fb : Bytes) :
     QSafe s (EvOkAt region fb s.id) (queryBody s region fb) := by
   intro w hopen
-  exact qsafe_pageLoop s hp hudp region fb _ [] zeroIp 0 w (Or.inl ⟨rfl, rfl⟩) hopen (by simp [qlen])
+  obtain ⟨h1, h2⟩ := qsafe_pageLoop SeedOk (fun a => Or.inr ⟨a, rfl, rfl⟩) s hp hudp region fb
+    ((w.conns.getD s.id []).length + 1) [] zeroIp 0 w (Or.inl ⟨rfl, rfl⟩) hopen (by simp [qlen])
+  exact ⟨h1, h2.mono (evOkAt_of region fb s.id)⟩
 
 /-- the body of `query_singular` after the socket has been opened -/
 def singularBody (s : Sock) (region : Nat) (fb : Bytes) : Q (List Addr) := do
@@ -157,7 +176,8 @@ theorem querySingular_eq (region : Nat) (fs : Option SearchFilters) :
 theorem qsafe_singularBody (s : Sock) (hp : s.port = masterPort) (region : Nat) (fb : Bytes) :
     QSafe s (EvOkAt region fb s.id) (singularBody s region fb) := by
   unfold singularBody
-  refine QSafe.bind (qsafe_querySpecific s hp region fb zeroIp 0 (Or.inl ⟨rfl, rfl⟩)) fun ips => ?_
+  refine QSafe.bind ((qsafe_querySpecific SeedOk s hp region fb zeroIp 0 (Or.inl ⟨rfl, rfl⟩)).mono
+    (evOkAt_of region fb s.id)) fun ips => ?_
   split
   · split
     · exact QSafe.pure _ _ _
